@@ -1,5 +1,192 @@
-/- C14 — property theorems (to be written). -/
-import SoundeventModel.Basic
+/-
+  C14 — Clip segmentation tiles the clip on the hop lattice.
+  Property theorems only (helper lemmas: Proofs/Lemmas/Segment.lean).
+
+  `segmentClip` is the model of `segment_clip` **after fix C14-1** (loop bound
+  `ceil(duration / hop)`); `segmentClipPinned` is the pinned tree's loop bound
+  `floor(duration / hop)`, for which the property is refuted below.
+-/
+import Proofs.Lemmas.Segment
 namespace SE.Proofs.C14
+open SE SE.Segment SE.Proofs.SegmentLemmas
+
+/-- non-positive duration or hop is rejected (`ValueError`), nothing else is -/
+theorem C14_rejects_nonpositive (s e dur hop : Rat) (incl : Bool) :
+    (segmentClip s e dur hop incl = .error .invalid ↔ (dur ≤ 0 ∨ hop ≤ 0)) ∧
+    ((∃ out, segmentClip s e dur hop incl = .ok out) ↔ (0 < dur ∧ 0 < hop)) := by
+  unfold segmentClip segmentClipWith
+  by_cases h1 : dur ≤ 0
+  · simp [h1]; grind
+  · by_cases h2 : hop ≤ 0
+    · simp [h1, h2]; grind
+    · simp [h1, h2]; grind
+
+/-- `hop=None` is `hop = duration` -/
+theorem C14_default_hop (s e dur : Rat) (incl : Bool) :
+    segmentClipOpt s e dur none incl = segmentClip s e dur dur incl := rfl
+
+/-- the `i`-th segment yielded starts at `start + i·hop` (in order, no index skipped) and
+    is that lattice window truncated at the clip end -/
+theorem C14_lattice {s e dur hop : Rat} {incl : Bool} {out : List (Rat × Rat)}
+    (h : segmentClip s e dur hop incl = .ok out) (i : Nat) (hi : i < out.length) :
+    out[i].1 = s + i * hop ∧ out[i].2 = min (s + i * hop + dur) e := by
+  obtain ⟨_, _, rfl⟩ := ok_inv h
+  have := loop_getElem? s e dur hop incl (bound s e hop) 0 i _ (List.getElem?_eq_getElem hi)
+  rw [this]; simp [window]
+
+/-- every segment lies inside the parent clip and is non-empty -/
+theorem C14_inside {s e dur hop : Rat} {incl : Bool} {out : List (Rat × Rat)}
+    (h : segmentClip s e dur hop incl = .ok out) (p : Rat × Rat) (hp : p ∈ out) :
+    s ≤ p.1 ∧ p.1 < p.2 ∧ p.2 ≤ e := by
+  obtain ⟨hd, hh, _⟩ := ok_inv h
+  obtain ⟨j, h1, h2, _, h4⟩ := (mem_iff h p).1 hp
+  have := lattice_mono s hop hh (Nat.zero_le j)
+  refine ⟨by grind, ?_, by grind⟩
+  rw [h4]; grind
+
+/-- without `include_incomplete`: exactly the lattice windows that fit completely -/
+theorem C14_complete_iff {s e dur hop : Rat} {out : List (Rat × Rat)}
+    (h : segmentClip s e dur hop false = .ok out) (a b : Rat) :
+    (a, b) ∈ out ↔ ∃ i : Nat, a = s + i * hop ∧ b = a + dur ∧ b ≤ e := by
+  obtain ⟨hd, _, _⟩ := ok_inv h
+  rw [mem_iff h]
+  constructor
+  · rintro ⟨j, h1, h2, h3, h4⟩
+    simp at h1 h2 h3 h4
+    exact ⟨j, h1, by grind, by grind⟩
+  · rintro ⟨j, h1, h2, h3⟩
+    refine ⟨j, h1, ?_, .inr ?_, ?_⟩ <;> simp <;> grind
+
+/-- with `include_incomplete`: exactly the lattice windows that start inside the clip,
+    truncated at the clip end -/
+theorem C14_incomplete_iff {s e dur hop : Rat} {out : List (Rat × Rat)}
+    (h : segmentClip s e dur hop true = .ok out) (a b : Rat) :
+    (a, b) ∈ out ↔ ∃ i : Nat, a = s + i * hop ∧ a < e ∧ b = min (a + dur) e := by
+  rw [mem_iff h]
+  constructor
+  · rintro ⟨j, h1, h2, _, h4⟩; exact ⟨j, h1, h2, h4⟩
+  · rintro ⟨j, h1, h2, h4⟩; exact ⟨j, h1, h2, .inl rfl, h4⟩
+
+/-- every complete window lasts exactly `duration` (all of them without
+    `include_incomplete`); a truncated one ends at the clip end and is shorter -/
+theorem C14_duration {s e dur hop : Rat} {incl : Bool} {out : List (Rat × Rat)}
+    (h : segmentClip s e dur hop incl = .ok out) (p : Rat × Rat) (hp : p ∈ out) :
+    (p.1 + dur ≤ e → p.2 - p.1 = dur) ∧ (incl = false → p.2 - p.1 = dur) ∧
+    (p.2 - p.1 = dur ∨ (incl = true ∧ p.2 = e ∧ p.2 - p.1 < dur)) := by
+  obtain ⟨j, _, _, h3, h4⟩ := (mem_iff h p).1 hp
+  refine ⟨by grind, ?_, ?_⟩
+  · intro hi; simp [hi] at h3; grind
+  · rcases h3 with h3 | h3
+    · by_cases h5 : p.1 + dur ≤ e
+      · left; grind
+      · right; exact ⟨h3, by grind, by grind⟩
+    · left; grind
+
+/-- with `include_incomplete` and `hop ≤ duration` the segments cover the whole clip -/
+theorem C14_cover {s e dur hop : Rat} {out : List (Rat × Rat)}
+    (h : segmentClip s e dur hop true = .ok out) (hle : hop ≤ dur) (t : Rat)
+    (h1 : s ≤ t) (h2 : t < e) : ∃ p ∈ out, p.1 ≤ t ∧ t < p.2 := by
+  obtain ⟨_, hh, _⟩ := ok_inv h
+  -- the lattice point at or just below `t`
+  have hq : 0 ≤ (t - s) / hop := by
+    apply Rat.not_lt.1
+    intro hneg
+    have := (Rat.div_lt_iff hh).1 hneg
+    grind
+  have hf0 : 0 ≤ ((t - s) / hop).floor := Rat.le_floor_iff.2 (by simpa using hq)
+  have hcast : ((((t - s) / hop).floor.toNat : Nat) : Rat) = (((t - s) / hop).floor : Rat) := by
+    have : ((((t - s) / hop).floor.toNat : Nat) : Int) = ((t - s) / hop).floor := Int.toNat_of_nonneg hf0
+    exact_mod_cast this
+  have hmul : (t - s) / hop * hop = t - s := by rw [Rat.div_mul_cancel]; grind
+  have hlo : (((t - s) / hop).floor : Rat) * hop ≤ t - s := by
+    have := Rat.mul_le_mul_of_nonneg_right (Rat.floor_le ((t - s) / hop)) (Rat.le_of_lt hh)
+    grind
+  have hhi : t - s < ((((t - s) / hop).floor : Rat) + 1) * hop := by
+    have h3 := Rat.lt_floor_add_one ((t - s) / hop)
+    have h4 : (((((t - s) / hop).floor + 1 : Int)) : Rat) = (((t - s) / hop).floor : Rat) + 1 := by
+      norm_cast
+    rw [h4] at h3
+    have := Rat.mul_lt_mul_of_pos_right h3 hh
+    grind
+  refine ⟨window s e dur hop ((t - s) / hop).floor.toNat, ?_, ?_, ?_⟩
+  · rw [mem_iff h]
+    refine ⟨_, rfl, ?_, .inl rfl, rfl⟩
+    simp only [window, hcast]; grind
+  · simp only [window, hcast]; grind
+  · simp only [window, hcast]; grind
+
+/-- the starts strictly increase, so the keys `(parent, start, end)` the identifiers are
+    computed from are pairwise distinct within one call -/
+theorem C14_ids_distinct {s e dur hop : Rat} {incl : Bool} {out : List (Rat × Rat)}
+    (h : segmentClip s e dur hop incl = .ok out) (parent : String) :
+    out.Pairwise (fun p q => p.1 < q.1) ∧ (out.map (segKey parent)).Nodup := by
+  obtain ⟨_, hh, _⟩ := ok_inv h
+  have hinc : out.Pairwise (fun p q => p.1 < q.1) := by
+    rw [List.pairwise_iff_getElem]
+    intro i j hi hj hij
+    rw [(C14_lattice h i hi).1, (C14_lattice h j hj).1]
+    exact lattice_strict s hop hh hij
+  refine ⟨hinc, ?_⟩
+  unfold List.Nodup
+  rw [List.pairwise_map]
+  refine hinc.imp ?_
+  intro p q hpq heq
+  simp only [segKey, Prod.mk.injEq] at heq
+  grind
+
+/-- the loop bound only has to be large enough: any number of further iterations changes
+    nothing (the two `break`s end the loop, not the bound) -/
+theorem C14_bound_irrelevant (s e dur hop : Rat) (incl : Bool) (hh : 0 < hop) (k : Nat) :
+    loop s e dur hop incl (bound s e hop + k) 0 = loop s e dur hop incl (bound s e hop) 0 :=
+  loop_stable s e dur hop incl hh _ (bound_reaches s e hop hh) k
+
+/-- the executable statement used by the monitor (`holds`: the result lists the lattice
+    windows 0, 1, 2, … in order and stops only where the next one does not exist; a raise
+    only for non-positive parameters) is satisfied by exactly one result: the model's -/
+theorem C14_holds_iff (s e dur hop : Rat) (incl : Bool) (o : Option (List (Rat × Rat))) :
+    holds s e dur hop incl o = true ↔ o = (segmentClip s e dur hop incl).toOption := by
+  unfold holds segmentClip segmentClipWith
+  by_cases h1 : dur ≤ 0
+  · cases o <;> simp [h1, Except.toOption] <;> grind
+  · by_cases h2 : hop ≤ 0
+    · cases o <;> simp [h1, h2, Except.toOption] <;> grind
+    · have hd : 0 < dur := Rat.not_le.1 h1
+      have hh : 0 < hop := Rat.not_le.1 h2
+      have hb : e ≤ s + ((0 + bound s e hop : Nat) : Rat) * hop := by
+        simpa using bound_reaches s e hop hh
+      cases o with
+      | none => simp [h1, h2, Except.toOption]
+      | some l =>
+        simp only [h1, h2, hd, hh, if_false, Except.toOption, decide_true, Bool.true_and,
+          Option.some.injEq]
+        constructor
+        · intro hl; exact (loop_of_holdsFrom s e dur hop incl l _ 0 hb hl).symm
+        · rintro rfl; exact holdsFrom_loop s e dur hop incl _ 0 hb
+
+/-! ### the pinned tree (loop bound `floor(duration / hop)`) violates the property -/
+
+/-- 10 s clip, 3 s windows, hop 3, incomplete windows wanted: the window `(9, 10)` starts
+    inside the clip and is not produced; 1 s windows with hop 4: the complete window
+    `(8, 9)` is not produced; and the segments do not cover the clip although hop ≤ duration -/
+theorem C14_pinned_bound_loses_windows :
+    segmentClipPinned 0 10 3 3 true = .ok [(0, 3), (3, 6), (6, 9)] ∧
+    Window 0 10 3 3 true 3 (9, 10) ∧
+    segmentClipPinned 0 10 1 4 false = .ok [(0, 1), (4, 5)] ∧
+    Window 0 10 1 4 false 2 (8, 9) ∧
+    holds 0 10 3 3 true (segmentClipPinned 0 10 3 3 true).toOption = false ∧
+    holds 0 10 1 4 false (segmentClipPinned 0 10 1 4 false).toOption = false := by
+  refine ⟨by decide +kernel, ⟨by decide +kernel, by decide +kernel, .inl rfl, by decide +kernel⟩,
+    by decide +kernel, ⟨by decide +kernel, by decide +kernel, .inr (by decide +kernel), by decide +kernel⟩,
+    by decide +kernel, by decide +kernel⟩
+
+-- non-vacuity: the repaired model on the same witnesses, and the standard cases
+example : segmentClip 0 10 3 3 true = .ok [(0, 3), (3, 6), (6, 9), (9, 10)] := by decide +kernel
+example : segmentClip 0 10 1 4 false = .ok [(0, 1), (4, 5), (8, 9)] := by decide +kernel
+example : segmentClip 0 10 4 3 true = .ok [(0, 4), (3, 7), (6, 10), (9, 10)] := by decide +kernel
+example : segmentClip 0 10 3 2 false = .ok [(0, 3), (2, 5), (4, 7), (6, 9)] := by decide +kernel
+example : segmentClip (1/2) (1/2) 2 2 true = .ok [] := by decide +kernel
+example : segmentClip 0 10 0 1 true = .error .invalid := by decide +kernel
+example : segmentClip 0 10 1 (-1) true = .error .invalid := by decide +kernel
+example : holds 0 10 3 3 true (some [(0, 3), (3, 6), (6, 9), (9, 10)]) = true := by decide +kernel
 
 end SE.Proofs.C14
